@@ -206,10 +206,34 @@ impl WriteCircuitBreaker {
 }
 
 fn current_timestamp() -> u64 {
+    #[cfg(sierra_db_sierradb_verif)]
+    if let Some(t) = verif_hooks::clock_override() {
+        return t;
+    }
     SystemTime::now()
         .duration_since(UNIX_EPOCH)
         .unwrap_or_default()
         .as_millis() as u64
+}
+
+/// Clock override for the external verification harness (replay runner): lets a recorded
+/// counterexample fix the value `current_timestamp()` returns on this thread.
+/// Compiled only with `--cfg sierra_db_sierradb_verif`.
+#[cfg(sierra_db_sierradb_verif)]
+pub mod verif_hooks {
+    use std::cell::Cell;
+
+    thread_local! {
+        static CLOCK: Cell<Option<u64>> = const { Cell::new(None) };
+    }
+
+    pub fn set_clock(t: Option<u64>) {
+        CLOCK.with(|c| c.set(t));
+    }
+
+    pub fn clock_override() -> Option<u64> {
+        CLOCK.with(|c| c.get())
+    }
 }
 
 #[cfg(test)]
